@@ -36,7 +36,7 @@ func c02Records(t *rapid.T, n int) []vfkit.Record {
 
 func c02DrawBatch(t *rapid.T) c02Batch {
 	class := rapid.SampledFrom([]string{"wellformed", "wellformed", "wellformed", "wellformed-large", "lod-neg", "lod-big", "lod-small",
-		"count-mismatch", "both-mismatch", "concat", "badlength", "badmagic", "badcrc", "truncated", "tiny", "garbage"}).Draw(t, "class")
+		"count-mismatch", "both-mismatch", "pair-nonpositive", "concat", "badlength", "badmagic", "badcrc", "truncated", "tiny", "garbage"}).Draw(t, "class")
 	n := rapid.IntRange(1, 12).Draw(t, "n")
 	if class == "wellformed-large" {
 		n = rapid.IntRange(40, 300).Draw(t, "nlarge")
@@ -77,6 +77,14 @@ func c02DrawBatch(t *rapid.T) c02Batch {
 		// that satisfies a 32-bit "count == delta+1" comparison by overflow
 		b.NumRecords = int32(uint32(k))
 		b.LastOffsetDelta = int32(uint32(k - 1))
+		return c02Batch{class, b.Encode()}
+	case "pair-nonpositive":
+		// header pair consistent with each other but zero or negative: numRecords = k <= 0,
+		// lastOffsetDelta = k-1 < 0 (a broker that moves its next offset by the header would
+		// move it backwards)
+		k := rapid.SampledFrom([]int{0, -1, -2, -3, -n, -n - 5, -1 << 30}).Draw(t, "knonpos")
+		b.NumRecords = int32(k)
+		b.LastOffsetDelta = int32(k - 1)
 		return c02Batch{class, b.Encode()}
 	case "concat":
 		out := b.Encode()
